@@ -141,3 +141,18 @@ Proof.
   unfold guess_connectivity, guess_connectivity_sq.
   rewrite <- (map_id atoms) at 1. apply conn_from_ext. intros a b. apply bonded_R_sq.
 Qed.
+
+(** the returned dihedral is THE angle in (-pi, pi] that is an argument of the textbook pair *)
+Lemma dihedral_R_unique (p1 p2 p3 p4 : vec3 RK) (th' : R) :
+  p3 <> p2 -> (tb_dih_x RK p1 p2 p3 p4 <> 0 \/ tb_dih_y RK p1 p2 p3 p4 <> 0) ->
+  is_arg (tb_dih_y RK p1 p2 p3 p4) (tb_dih_x RK p1 p2 p3 p4) th' -> - PI < th' <= PI ->
+  compute_dihedral RK (@A2 RK [p1]) (@A2 RK [p2]) (@A2 RK [p3]) (@A2 RK [p4]) false = Ok (@A1 RK [th']).
+Proof.
+  intros H ND A' B'. destruct (dihedral_R_textbook p1 p2 p3 p4 H) as [y [x [k [_ [Hfull [Hk [HY HX]]]]]]].
+  rewrite Hfull. f_equal. f_equal. f_equal.
+  assert (Hyx : x <> 0 \/ y <> 0).
+  { destruct ND as [N|N]; [left | right]; intro E; apply N; [rewrite HX | rewrite HY]; rewrite E; apply Rmult_0_r. }
+  destruct (Ratan2_spec y x Hyx) as [A B]. pose proof (Ratan2_gt_mPI y x Hyx) as G.
+  apply (is_arg_unique (tb_dih_y RK p1 p2 p3 p4) (tb_dih_x RK p1 p2 p3 p4)); try assumption; try lra.
+  rewrite HY, HX. apply is_arg_scale; assumption.
+Qed.
